@@ -1500,7 +1500,7 @@ PROPS = {
               "accessors at extreme indices, all executed under AddressSanitizer + UndefinedBehaviorSanitizer + libstdc++ "
               "assertions; a sanitizer report on an input for which the model returns Ok/Throw is a violation",
               variants={'quick': ['asan'], 'thorough': ['asan', 'asanchecks']}, scan=True,
-              trusted_extra=["gen/scan_sites.py: regular-expression scanner that regenerates the table of unchecked accesses (coq/gen/Sites.v) from /repo's headers on every run; Proofs_Sites.sites_covered is re-proved by vm_compute against it"]),
+              trusted_extra=["gen/scan_sites.py: regular-expression scanner that lists the shapes of unchecked accesses in /repo's headers on every run; a shape missing from the reviewed table of coq/Proofs_Sites.v is reported as a NOTE and escalates the sanitizer search to the thorough tier's cases (it is not a proof obligation, DESIGN R9)"]),
     'C11': _p(gen_C11, nontrivial_C11,
               "grids: duplicate/descent/outlier at every position of sequences of length 0..5 (quick) / 0..6; supports: every index "
               "pair from 0..n+2 and 2^64-1 on grids of 2..4 / 2..5 points; splines: every coefficient count against every window; "
@@ -1618,3 +1618,7 @@ _P = ("cpp/symops2.cpp + gen/symops2.py: operations that branch on scalar values
       "at Qc showing its path condition satisfiable; finite scenario lists")
 for _c in ('C01', 'C02', 'C11', 'C12', 'C15'):
     PROPS[_c]['trusted_extra'] = list(PROPS[_c].get('trusted_extra', [])) + [_P % _c]
+PROPS['C16']['trusted_extra'] = list(PROPS['C16'].get('trusted_extra', [])) + [
+    "gen/symround.py + gen/symroundops.py: reify the expressions extracted by gen/symkern.py / gen/symops.py (the compiled code's own "
+    "operation order) into coq/gen/RoundGen_*.v / RoundOpsGen_*.v; coq/Proofs_RoundTac.v / Proofs_RoundOpsTac.v prove the generic "
+    "forward rounding-error bound instantiated there (Properties_C16_K.v, Properties_C16_O.v); same trusted pieces as the kernel tie"]
